@@ -1,6 +1,6 @@
 (* The main loop of TimeTriggeredPlanValidator._validate (start list + heap of scheduled effects) applies the groups of
    simultaneous scheduled entries in increasing time: [tt_main] = push every entry, then [run_groups] over [groups]. *)
-From Coq Require Import List ZArith NArith QArith Qcanon Bool Lia Lra Lqa Permutation.
+From Coq Require Import List ZArith NArith QArith Qcanon Bool Lia Lqa Permutation.
 Import ListNotations.
 Require Import UPV.Core.Expr UPV.Core.Eval UPV.Core.Interp UPV.Planning.Problem UPV.Planning.Sem.
 Require Import UPV.Planning.Temporal UPV.Planning.TTValidate.
